@@ -7,6 +7,13 @@ Part A (kernel lemmas): every scalar `Base<A,B>::value` closure of injection.rs 
 Part B (grid x symbolic value): source types on a boundary grid are pushed through the real
   `into_data_type` (driver); the solver looks for a value v in A whose kernel image is outside the type the real
   code returned, or that is refused although the type conversion was accepted.
+Part T: Integer -> Text at type level (string theory, decimal spelling against the real converted type).
+Part D (chrono model, lib/chrono.py): the Date <-> DateTime kernels are translated from their MIR with dates / datetimes as
+  integer tuples and the chrono calls they make as callee models (injectivity, refusal of lossy conversions, round trip,
+  no panic); the X -> Text kernels of Date / Time / DateTime are read from the MIR as a formatter (Display or an strftime
+  string) and encoded as fixed-position character tuples: the solver decides injectivity and order preservation (which the
+  converted type, built from the images of interval end points, relies on) over every calendar-valid value of the years
+  1..9999; the formatter model is validated against the real conversions on concrete values at every run.
 Counterexamples are replayed through the real `inject_into(..).value(..)` before anything is reported.
 """
 import os, sys, re, json, time, itertools
@@ -444,6 +451,183 @@ def main():
             ck.inconclusive("Integer -> Text counterexample %s (x = %d, range %s, image %s) did not reproduce: %s contains=%s" % (r["id"], xv, info["rng"], info["image_s"], json.dumps(rv)[:100], inside))
     dt_.close()
 
+    # ------------------------------------------------------------------ D: date / time / datetime kernels (chrono model)
+    # lib/chrono.py: dates, times and datetimes as integer tuples; the chrono calls of the Date <-> DateTime kernels as
+    # callee models of the MIR translator; the formatter of the X -> Text kernels (format!("{arg}") = Display, or
+    # arg.format("...")) read from the MIR of the current tree and encoded as fixed-position character tuples.
+    import chrono
+    dq, dmeta = [], {}
+    d_encoded, d_renderers, d_nt = [], {}, {}
+    dd = driver.Driver(20.0)
+
+    def dadd(qid, decls, asserts, values, info, expect=None):
+        dq.append(dict(id=qid, script="\n".join(decls + ["(assert %s)" % a for a in asserts]), values=values))
+        dmeta[qid] = dict(info, expect=expect)
+
+    TY = {"Date": "NaiveDate", "Time": "NaiveTime", "DateTime": "NaiveDateTime"}
+    # D1: Date -> DateTime (f) and DateTime -> Date (g)
+    kf, kg = found.get(("Date", "DateTime")), found.get(("DateTime", "Date"))
+    try:
+        if kf and kg:
+            f1, f2 = chrono.translate(fns, kf, "a"), chrono.translate(fns, kf, "b")
+            g1, g2 = chrono.translate(fns, kg, "a"), chrono.translate(fns, kg, "b")
+            d_encoded += [kf, kg]
+            teq = lambda x, y: land(["(= %s %s)" % (p_.t, q_.t) for p_, q_ in zip(x.items, y.items)])
+            gdef = lambda g: "(= %s 1)" % g["val"].disc
+            gval = lambda g: g["val"].variants[1][0].t
+            base_f = f1["decls"] + f2["decls"]
+            dadd("D/Date->DateTime/not-injective", base_f, f1["side"] + f2["side"] + [lnot(f1["panic"]), lnot(f2["panic"]), "(not (= daysa daysb))", teq(f1["val"], f2["val"])], ["daysa", "daysb"], dict(kind="f-inj"))
+            dadd("D/Date->DateTime/panics", f1["decls"], f1["side"] + [f1["panic"]], ["daysa"], dict(kind="f-panic"))
+            dadd("D/Date->DateTime/witness", f1["decls"], f1["side"] + [lnot(f1["panic"])], ["daysa"], dict(kind="witness"), expect="sat")
+            base_g = g1["decls"] + g2["decls"]
+            dta, dtb = ["daysa", "secsa", "fraca"], ["daysb", "secsb", "fracb"]
+            dadd("D/DateTime->Date/not-injective", base_g, g1["side"] + g2["side"] + [gdef(g1), gdef(g2), "(= %s %s)" % (gval(g1), gval(g2)), lnot(land(["(= %s %s)" % (x, y) for x, y in zip(dta, dtb)]))], dta + dtb, dict(kind="g-inj"))
+            # accepted => converting the result back gives the source (lossy conversions are refused)
+            fb = chrono.translate(fns, kf, "c")
+            dadd("D/DateTime->Date/lossy-accepted", g1["decls"] + fb["decls"], g1["side"] + fb["side"] + [gdef(g1), "(= daysc %s)" % gval(g1), lnot(land(["(= %s %s)" % (x, y.t) for x, y in zip(dta, fb["val"].items)]))], dta, dict(kind="g-lossy"))
+            # round trip: g(f(d)) = Some(d)
+            dadd("D/Date->DateTime/round-trip", f1["decls"] + g2["decls"], f1["side"] + g2["side"] + [lnot(f1["panic"])] + ["(= %s %s)" % (x, y.t) for x, y in zip(dtb, f1["val"].items)] + [lor([lnot(gdef(g2)), "(not (= %s daysa))" % gval(g2)])], ["daysa"], dict(kind="rt"))
+            dadd("D/DateTime->Date/witness", g1["decls"], g1["side"] + [gdef(g1)], dta, dict(kind="witness"), expect="sat")
+        else:
+            d_nt["Date<->DateTime"] = "kernels not found in the MIR"
+            ck.inconclusive("Date <-> DateTime kernels not found in the current tree")
+    except mir.NotTranslatable as ex:
+        d_nt["Date<->DateTime"] = str(ex)
+        ck.inconclusive("Date <-> DateTime kernels are not translatable in the current tree: %s" % ex)
+    # D2: X -> Text formatters
+    for X in ("Date", "Time", "DateTime"):
+        name = found.get((X, "Text"))
+        ty = TY[X]
+        if not name:
+            ck.inconclusive("%s -> Text kernel not found in the current tree" % X)
+            continue
+        try:
+            r_ = chrono.renderer_of(fns[name])
+            fmt = chrono.DISPLAY[r_[1]] if r_[0] == "display" else r_[2]
+            if r_[1] != ty:
+                raise mir.NotTranslatable("formats a %s" % r_[1])
+            c1, c2 = chrono.render(ty, fmt, "1"), chrono.render(ty, fmt, "2")
+        except mir.NotTranslatable as ex:
+            d_nt["%s->Text" % X] = str(ex)
+            ck.inconclusive("%s -> Text: formatter of the current tree has no model: %s" % (X, ex))
+            continue
+        d_encoded.append(name)
+        d_renderers["%s->Text" % X] = dict(kind=r_[0], items=fmt, characters=len(c1))
+        n_ = max(len(c1), len(c2))
+        c1, c2 = chrono.pad(c1, n_), chrono.pad(c2, n_)
+        ds1, s1 = chrono.field_decls(ty, "1")
+        ds2, s2 = chrono.field_decls(ty, "2")
+        fl1, fl2 = [x + "1" for x in chrono.FIELDS[ty]], [x + "2" for x in chrono.FIELDS[ty]]
+        lt = chrono.tuple_lt(fl1, fl2)
+        vals_ = fl1 + fl2
+        dadd("D/%s->Text/not-injective" % X, ds1 + ds2, s1 + s2 + [lt, land(["(= %s %s)" % (a_, b_) for a_, b_ in zip(c1, c2)])], vals_, dict(kind="t-inj", X=X, ty=ty, fmt=fmt))
+        dadd("D/%s->Text/not-monotone" % X, ds1 + ds2, s1 + s2 + [lt, lnot(chrono.tuple_lt(c1, c2)), lnot(land(["(= %s %s)" % (a_, b_) for a_, b_ in zip(c1, c2)]))], vals_, dict(kind="t-mono", X=X, ty=ty, fmt=fmt))
+        dadd("D/%s->Text/witness" % X, ds1 + ds2, s1 + s2 + [lt], vals_, dict(kind="witness"), expect="sat")
+        # model validation: concrete values through the real conversion and through the character model
+        pts = {"NaiveDate": [dict(y=2021, mo=3, d=14), dict(y=1, mo=1, d=1), dict(y=9999, mo=12, d=31), dict(y=2000, mo=2, d=29), dict(y=987, mo=10, d=9)],
+               "NaiveTime": [dict(h=0, mi=0, s=0, ns=0), dict(h=23, mi=59, s=59, ns=999999999), dict(h=7, mi=5, s=9, ns=250000000), dict(h=12, mi=0, s=1, ns=1000), dict(h=12, mi=30, s=0, ns=120000)]}
+        pts["NaiveDateTime"] = [dict(a_, **b_) for a_, b_ in zip(pts["NaiveDate"], pts["NaiveTime"])]
+        for pi, fl in enumerate(pts[ty]):
+            cs = ["c%d" % i for i in range(len(c1))]
+            decls_ = ds1 + ["(declare-const %s Int)" % c for c in cs]
+            dadd("D/%s->Text/validate/%d" % (X, pi), decls_, s1 + ["(= %s1 %d)" % (k_, v_) for k_, v_ in fl.items()] + ["(= %s %s)" % (c, t_) for c, t_ in zip(cs, c1)], cs, dict(kind="validate", X=X, ty=ty, fl=fl), expect="sat")
+    dres = smt.solve_all(dq, tq, workers=8) if dq else []
+    ck.count(dres)
+    d_valid = 0
+
+    def real_text(X, ty, fl):
+        num = chrono.to_num(ty, fl)
+        v = {"t": X, "v": str(num) if X == "DateTime" else num}
+        rv = dd.call(dict(op="as_data_type", v=v, to={"t": "Text", "iv": [["\u0000", "\U0010ffff"]]}))
+        return rv, v
+
+    for r in dres:
+        info = dmeta[r["id"]]
+        if info["expect"] == "sat":
+            if r["status"] != "sat":
+                ck.inconclusive("vacuity / validation query %s is %s" % (r["id"], r["status"]))
+            elif info["kind"] == "validate":
+                want = chrono.py_render([int(r["model"]["c%d" % i]) for i in range(len(r["model"]))])
+                rv, _ = real_text(info["X"], info["ty"], info["fl"])
+                got = (rv.get("ok") or {}).get("v")
+                if got == want:
+                    d_valid += 1
+                    tv_n += 1
+                else:
+                    ck.inconclusive("formatter model mismatch for %s %s: model %r, real code %r" % (info["X"], info["fl"], want, json.dumps(rv)[:120]))
+            continue
+        if r["status"] != "sat":
+            continue
+        mv = r["model"]
+        kind = info["kind"]
+        if kind in ("t-inj", "t-mono"):
+            X, ty = info["X"], info["ty"]
+            try:
+                flA, flB = chrono.model_fields(mv, ty, "1"), chrono.model_fields(mv, ty, "2")
+                (ra, va), (rb, vb) = real_text(X, ty, flA), real_text(X, ty, flB)
+            except Exception as ex:
+                unconfirmed += 1
+                ck.inconclusive("%s counterexample could not be built: %s" % (r["id"], ex))
+                continue
+            sa, sb = (ra.get("ok") or {}).get("v"), (rb.get("ok") or {}).get("v")
+            if kind == "t-inj" and sa is not None and sa == sb:
+                confirmed += 1
+                ck.violation("injection=%s->Text/not-injective" % X, "two different %s values, %s and %s, convert to the same text %r (formatter %r)" % (X, flA, flB, sa, info["fmt"]), dict(a=va, b=vb, text=sa))
+            elif kind == "t-mono" and sa is not None and sb is not None and not (sa < sb):
+                # the converted type of [a, b] is built from the images of the end points: ask the real code
+                img = dd.call(dict(op="inject", **{"from": {"t": X, "iv": [[va["v"], vb["v"]]]}, "to": {"t": "Text", "iv": []}}, values=[va, vb]))
+                confirmed += 1
+                ck.violation("injection=%s->Text/value-outside-converted-type/order-not-preserved" % X, "%s %s < %s but the texts %r, %r are not in that order: the converted type of the interval (%s) is built from the images of its end points" % (X, flA, flB, sa, sb, json.dumps(img.get("variant") or img.get("image"))[:160]), dict(a=va, b=vb))
+            else:
+                unconfirmed += 1
+                ck.inconclusive("%s: counterexample did not reproduce on the real conversion (%r, %r)" % (r["id"], sa, sb))
+            continue
+        # Date <-> DateTime
+        NS = 86400 * 10 ** 9
+        dnum = lambda sfx: int(mv["days" + sfx])
+        dtnum = lambda sfx: int(mv["days" + sfx]) * NS + int(mv["secs" + sfx]) * 10 ** 9 + int(mv["frac" + sfx])
+        call_f = lambda n: dd.call(dict(op="inject_direct", **{"from": {"t": "Date", "iv": [[n, n]]}, "to": {"t": "DateTime", "iv": [[str(NS), str(3652060 * NS - 1)]]}}, values=[{"t": "Date", "v": n}]))
+        call_g = lambda n: dd.call(dict(op="inject_direct", **{"from": {"t": "DateTime", "iv": [[str(n), str(n)]]}, "to": {"t": "Date", "iv": [[1, 3652059]]}}, values=[{"t": "DateTime", "v": str(n)}]))
+        ok_ = lambda a_: ((a_.get("values") or [{}])[0].get("ok") or {}).get("v")
+        try:
+            if kind == "f-inj":
+                a_, b_ = call_f(dnum("a")), call_f(dnum("b"))
+                rep = ok_(a_) is not None and ok_(a_) == ok_(b_)
+                what = "the dates %d and %d (days from CE) convert to the same datetime %s" % (dnum("a"), dnum("b"), ok_(a_))
+                key = "injection=Date->DateTime/not-injective"
+            elif kind == "f-panic":
+                a_ = call_f(dnum("a"))
+                rep = "panic" in json.dumps(a_)
+                what = "Date -> DateTime panics for the date %d (days from CE)" % dnum("a")
+                key = "injection=Date->DateTime/panic"
+            elif kind == "g-inj":
+                a_, b_ = call_g(dtnum("a")), call_g(dtnum("b"))
+                rep = ok_(a_) is not None and ok_(a_) == ok_(b_) and dtnum("a") != dtnum("b")
+                what = "two different datetimes (%d and %d ns from CE) convert to the same date %s" % (dtnum("a"), dtnum("b"), ok_(a_))
+                key = "injection=DateTime->Date/not-injective"
+            elif kind == "g-lossy":
+                a_ = call_g(dtnum("a"))
+                back = call_f(int(ok_(a_))) if ok_(a_) is not None else {}
+                rep = ok_(a_) is not None and str(ok_(back)) != str(dtnum("a"))
+                what = "the datetime %d ns from CE (secs of day %s, fraction %s ns) is accepted and becomes the date %s, which converts back to %s: a lossy conversion is approximated instead of refused" % (dtnum("a"), mv["secsa"], mv["fraca"], ok_(a_), ok_(back))
+                key = "injection=DateTime->Date/lossy-accepted"
+            else:
+                a_ = call_f(dnum("a"))
+                b_ = call_g(int(ok_(a_))) if ok_(a_) is not None else {}
+                rep = ok_(a_) is not None and ok_(b_) != dnum("a")
+                what = "the date %d converts to the datetime %s, which converts back to %s" % (dnum("a"), ok_(a_), json.dumps(b_)[:80])
+                key = "injection=Date->DateTime/round-trip"
+        except Exception as ex:
+            rep, what, key = False, "replay failed: %s" % ex, None
+        if rep:
+            confirmed += 1
+            ck.violation(key, what, dict(model={k_: str(v_) for k_, v_ in mv.items()}))
+        else:
+            unconfirmed += 1
+            ck.inconclusive("%s: counterexample did not reproduce on the real code: %s" % (r["id"], what))
+    dd.close()
+    ck.note("part D: %d chrono queries, %d formatter validation points agree with the real conversions; formatters: %s" % (len(dq), d_valid, json.dumps(d_renderers)))
+
     nA = sum(1 for q in queries if q["id"].startswith("A/"))
     nB = sum(1 for q in queries if q["id"].startswith("B/"))
     cov = dict(
@@ -453,7 +637,8 @@ def main():
         callees_modelled=sorted(set(c for k in K.values() for c in k.callees)),
         not_translatable=not_translatable,
         bounds=dict(width="full 64-bit bit-vectors / IEEE double", loops="none (kernels are loop-free)", grid_points=len(grid),
-                    integer_to_text_queries=n_text, outside=["->Text/Bytes conversions other than the type-level image of Integer -> Text (part T, string theory)", "Date/DateTime kernels (chrono calls)", "composite liftings (Struct/Union/Optional/List/Set/Array)",
+                    integer_to_text_queries=n_text, chrono=dict(queries=len(dq), kernels=d_encoded, formatters=d_renderers, not_translatable=d_nt, years="1..9999", time="no leap-second representation (fraction < 10^9 ns)"),
+                    outside=["Boolean / Float / Duration / Bytes -> Text (format! of non-chrono types) other than the type-level image of Integer -> Text (part T)", "dates outside the years 1..9999 and chrono's leap-second representation (part D)", "composite liftings (Struct/Union/Optional/List/Set/Array)",
                              "source types that trigger the values_len hang (C18)"]),
         lemma_queries=nA, grid_queries=nB, counterexamples_replayed=confirmed + unconfirmed, counterexamples_confirmed=confirmed,
         translator_validation_points=tv_n,
@@ -461,6 +646,7 @@ def main():
     )
     return ck.finish(cov, assumptions=[
         "MIR -> SMT translation (lib/mir.py) and its callee table; validated on %d concrete points against the real injections this run" % tv_n,
+        "part D: chrono's documented contract (lib/chrono.py): day number <-> (y, m, d) is a bijection, and_hms_opt / date / time / PartialEq / Timelike accessors, Display of NaiveDate / NaiveTime / NaiveDateTime = %Y-%m-%d / %H:%M:%S%.f / both separated by a blank; validated on concrete points against the real conversions this run",
         "Boolean->Float is Boolean->Integer followed by Integer->Float (as Base<Boolean,DataType> composes it); validated concretely",
         "rustc nightly MIR printer; cvc5 / z3",
     ])
